@@ -13,6 +13,7 @@ import (
 	"testing/synctest"
 	"time"
 
+	"github.com/mdlayher/corerad/internal/netstate"
 	"github.com/mdlayher/corerad/internal/vfh"
 )
 
@@ -141,7 +142,52 @@ func runShutdown(t *testing.T, out *vfh.Out, terminate bool, evs []advEvent, tc 
 	})
 }
 
+// runClosedWatch: the link watcher has already ended — its subscriber channels are closed — when the
+// advertiser (re)starts its goroutines: platforms without a link watcher, or a stop that lands while
+// the interface is being dialled.  The advertiser must serve and stop as usual (final RA when
+// terminating, Run returns).  In REAL time with a watchdog: a goroutine spinning on the closed
+// channel would never let a virtual clock advance.
+//
+//	cw terminate | status nFinal nAfter
+func runClosedWatch(t *testing.T, out *vfh.Out, terminate bool) {
+	out.Pending(fmt.Sprintf("runClosedWatch terminate=%v", terminate))
+	watchC := make(chan netstate.Change)
+	close(watchC)
+	v := newVfAdv(vfAdvConfig(200*time.Second, 600*time.Second, false, 1800*time.Second), terminate, watchC)
+	ctx, cancel := context.WithCancel(context.Background())
+	done := make(chan error, 1)
+	go func() { done <- v.a.Run(ctx) }()
+	// the initial RA shows the advertiser is up
+	deadline := time.Now().Add(5 * time.Second)
+	for len(v.conn.snapshot()) == 0 && time.Now().Before(deadline) {
+		time.Sleep(2 * time.Millisecond)
+	}
+	time.Sleep(20 * time.Millisecond)
+	cancel()
+	status := "nil"
+	select {
+	case err := <-done:
+		if err != nil {
+			status = "error"
+		}
+	case <-time.After(5 * time.Second):
+		status = "hung"
+	}
+	nFinal, n := 0, 0
+	for _, w := range v.conn.snapshot() {
+		n++
+		if w.ra != nil && w.ra.RouterLifetime == 0 {
+			nFinal++
+		}
+	}
+	out.Line(new(vfh.Toks).S("cw").B(terminate).String(), new(vfh.Toks).S(status).N(nFinal).B(n >= 1).String())
+	out.Flush()
+}
+
 func verifC08(t *testing.T, r *vfh.Rand, out *vfh.Out) {
+	for _, term := range []bool{true, false} {
+		runClosedWatch(t, out, term)
+	}
 	n := vfh.N(400, 8000)
 	for i := 0; i < n; i++ {
 		tc := time.Duration(r.Range(int64(4*time.Second), int64(12*time.Second))) | 1
